@@ -3,7 +3,7 @@ Model vs implementation on every case; reference semantics (Spec/PegEval.v, extr
 on every run for which the grammar lies in the fragment the theorems cover."""
 import json, re
 import vlib, gramlib
-from gen_grammar import Gen
+from gen_grammar import Gen, ser
 
 
 def gen_cases(tier, seed, stream):
@@ -20,6 +20,31 @@ def gen_cases(tier, seed, stream):
     # anything goes (ill-formed grammars included): correspondence only
     g3 = Gen(rnd, features=('dir', 'act', 'class'), wellformed=False)
     cases += [g3.case() for _ in range(n // 3)]
+    # one-byte terminals with the high bit set
+    g4 = Gen(rnd, features=('dir', 'act', 'hibyte'), wellformed=True, max_rules=3, max_depth=3, ninputs=6, maxlen=8,
+             alphabet=b"ab\xe9\xff\x80\xc3 ")
+    cases += [g4.case() for _ in range(n // 6)]
+    # short rules that refer to themselves in their own definition after a short prefix (the inlining decision sees a
+    # rule that is still being encoded)
+    lv = [('chr', '61'), ('chr', '62'), ('chr', '28'), ('chr', '29'), ('str', '6162'), ('any',)]
+    for _ in range(n // 6):
+        x, y, z = rnd.choice(lv), rnd.choice(lv), rnd.choice(lv)
+        shape = rnd.randrange(4)
+        if shape == 0:
+            body = ('alt', ('seq', x, ('ref', 'R0')), y)
+        elif shape == 1:
+            body = ('alt', ('seq', x, ('seq', ('ref', 'R0'), y)), ('eps',))
+        elif shape == 2:
+            body = ('seq', x, ('opt', ('ref', 'R0')))
+        else:
+            body = ('alt', ('seq', x, ('seq', ('ref', 'R0'), ('ref', 'R0'))), z)
+        sp = rnd.choice(["default", ('nop',)])
+        inputs = []
+        for _ in range(6):
+            inputs.append(bytes(rnd.choice(b"ab()ab") for _ in range(rnd.randint(0, 6))))
+        parts = [('space', sp), ('rule', 'R0', body), ('rule', 'R1', ('seq', ('ref', 'R0'), ('eoi',))), ('start', rnd.choice(['R0', 'R1']))]
+        parts += [('input', i.hex()) if i else ('input',) for i in inputs]
+        cases.append(ser(('grammar',) + tuple(parts)))
     return cases
 
 
